@@ -361,6 +361,24 @@ func handedToLibraryOwner(fn *ssa.Function, a ssa.Value) string {
 			switch x := r.(type) {
 			case ssa.CallInstruction:
 				n := core.CallName(x)
+				// handed to a module function of the package (typically `go r.serve(srv, l)`): what that function does
+				// with its parameter
+				if h := core.StaticCallee(x); h != nil && h.Blocks != nil && h.Pkg == fn.Pkg && h != fn {
+					for k, a := range core.CallArgs(x) {
+						if core.Strip(a) == core.Strip(v) && k < len(h.Params) {
+							if w := walk(h.Params[k], d+1); w != "" {
+								return "through " + core.FuncName(h) + ": " + w
+							}
+							// a wrapping constructor: the parameter is stored into a field of the object it returns
+							// (an embedded net.Listener keeps Close); the wrapper then carries the obligation
+							if xv, isVal := x.(ssa.Value); isVal && paramKeptInResult(h, h.Params[k]) {
+								if w := walk(xv, d+1); w != "" {
+									return "wrapped by " + core.FuncName(h) + ": " + w
+								}
+							}
+						}
+					}
+				}
 				if idx, ok := libraryOwners[n]; ok {
 					args := x.Common().Args
 					if idx >= 0 && idx < len(args) && core.Strip(args[idx]) == core.Strip(v) {
@@ -416,4 +434,31 @@ func handedToLibraryOwner(fn *ssa.Function, a ssa.Value) string {
 		return ""
 	}
 	return walk(a, 0)
+}
+
+// paramKeptInResult: h stores parameter p into a field of a struct it allocates and returns.
+func paramKeptInResult(h *ssa.Function, p *ssa.Parameter) bool {
+	kept := false
+	core.EachInstr(h, func(_ *ssa.BasicBlock, _ int, in ssa.Instruction) {
+		st, ok := in.(*ssa.Store)
+		if !ok || core.Strip(st.Val) != ssa.Value(p) {
+			return
+		}
+		fa, ok := st.Addr.(*ssa.FieldAddr)
+		if !ok {
+			return
+		}
+		al, ok := fa.X.(*ssa.Alloc)
+		if !ok {
+			return
+		}
+		for _, ret := range returnsOf(h) {
+			for _, rv := range core.ReturnResults(ret) {
+				if core.Strip(rv) == ssa.Value(al) {
+					kept = true
+				}
+			}
+		}
+	})
+	return kept
 }
